@@ -206,6 +206,19 @@ func child(args ...string) string {
 	return s
 }
 
+var pureGoRun = strings.HasSuffix(os.Getenv("VERIF_RUN"), "purego")
+
+// the free-running pass may be split over several processes (VERIF_SHARD = i/n): tuples are dealt round-robin, the
+// fresh-process sections (init, cold start, first use) run in process 0 only
+var raceShard, raceShards = func() (int, int) {
+	var i, n int
+	fmt.Sscanf(os.Getenv("VERIF_SHARD"), "%d/%d", &i, &n)
+	if n < 1 {
+		return 0, 1
+	}
+	return i, n
+}()
+
 func mainRace() {
 	if len(os.Args) > 2 && os.Args[1] == "-firstuse" {
 		firstUseChild(os.Args[2:])
@@ -248,54 +261,56 @@ func mainRace() {
 	mc.MaybeReplay()
 	R.Config(fmt.Sprintf("free-running -race pass, %d goroutines per tuple", nGoroutines))
 	th := R.Thorough()
-	// (c) initialisation, then cold starts: fresh processes
-	out := child("-init")
-	R.T(1)
-	if strings.Contains(out, "INIT SKIP") {
-		R.SkipHook("generator tables (init check)")
-	} else if !strings.Contains(out, "INIT OK") {
-		R.Mismatch("init/tables complete before main", "init", out, mc.D{})
-	} else {
-		R.Class("init/tables complete before the first library call (fresh process)", 1)
-	}
-	nCold := 3
-	if th {
-		nCold = 10
-	}
-	for i := 0; i < nCold; i++ {
-		for _, opn := range []string{"Point.ScalarBaseMult(S1)", "NewPrivateKey(bytes) (fresh object, shared tables)"} {
-			out := child("-cold", opn)
+	if raceShard == 0 {
+		// (c) initialisation, then cold starts: fresh processes
+		out := child("-init")
+		R.T(1)
+		if strings.Contains(out, "INIT SKIP") {
+			R.SkipHook("generator tables (init check)")
+		} else if !strings.Contains(out, "INIT OK") {
+			R.Mismatch("init/tables complete before main", "init", out, mc.D{})
+		} else {
+			R.Class("init/tables complete before the first library call (fresh process)", 1)
+		}
+		nCold := 3
+		if th {
+			nCold = 10
+		}
+		for i := 0; i < nCold; i++ {
+			for _, opn := range []string{"Point.ScalarBaseMult(S1)", "NewPrivateKey(bytes) (fresh object, shared tables)"} {
+				out := child("-cold", opn)
+				R.T(1)
+				R.NTs(1)
+				R.States(1)
+				if !strings.Contains(out, "COLD OK") {
+					R.Mismatch("cold-start/"+opn, "cold", out, mc.D{"op": opn})
+				}
+				R.Class("cold-start processes (first library calls concurrent)", 1)
+			}
+		}
+		// (c') first use: for every operation (alone and with its neighbour in the list) a fresh process in which the
+		// first executions of that operation are concurrent
+		var fu [][]string
+		for i := range ops {
+			fu = append(fu, []string{ops[i].name, ops[i].name})
+			if th || i%2 == 0 && !pureGoRun {
+				fu = append(fu, []string{ops[i].name, ops[(i+1)%len(ops)].name})
+			}
+		}
+		mc.Par(len(fu), func(i int) {
+			out := child(append([]string{"-firstuse"}, fu[i]...)...)
 			R.T(1)
 			R.NTs(1)
 			R.States(1)
-			if !strings.Contains(out, "COLD OK") {
-				R.Mismatch("cold-start/"+opn, "cold", out, mc.D{"op": opn})
+			if !strings.Contains(out, "FIRSTUSE OK") && !strings.Contains(out, "FIRSTUSE SKIP") {
+				if len(out) > 1500 {
+					out = out[:1500]
+				}
+				R.Mismatch("first-use/"+fu[i][0]+" || "+fu[i][1], "firstuse", out, mc.D{"ops": fu[i]})
 			}
-			R.Class("cold-start processes (first library calls concurrent)", 1)
-		}
+			R.Class("first-use processes (first executions of an operation concurrent)", 1)
+		})
 	}
-	// (c') first use: for every operation (alone and with its neighbour in the list) a fresh process in which the
-	// first executions of that operation are concurrent
-	var fu [][]string
-	for i := range ops {
-		fu = append(fu, []string{ops[i].name, ops[i].name})
-		if th || i%2 == 0 {
-			fu = append(fu, []string{ops[i].name, ops[(i+1)%len(ops)].name})
-		}
-	}
-	mc.Par(len(fu), func(i int) {
-		out := child(append([]string{"-firstuse"}, fu[i]...)...)
-		R.T(1)
-		R.NTs(1)
-		R.States(1)
-		if !strings.Contains(out, "FIRSTUSE OK") && !strings.Contains(out, "FIRSTUSE SKIP") {
-			if len(out) > 1500 {
-				out = out[:1500]
-			}
-			R.Mismatch("first-use/"+fu[i][0]+" || "+fu[i][1], "firstuse", out, mc.D{"ops": fu[i]})
-		}
-		R.Class("first-use processes (first executions of an operation concurrent)", 1)
-	})
 	// (b) free-running pairs on shared objects
 	e := newEnv()
 	fp := e.fingerprint()
@@ -313,8 +328,16 @@ func mainRace() {
 		rounds = 10
 	}
 	logBefore := ownRaceLogSize()
+	pairNo := 0
 	for i := range ops {
 		for j := i; j < len(ops); j++ {
+			pairNo++
+			if pairNo%raceShards != raceShard {
+				continue // this tuple belongs to another process of the same pass
+			}
+			if !th && pureGoRun && i != j && (ops[i].heavy || ops[j].heavy) {
+				continue // quick tier, pure-Go configuration: self pairs and light pairs (the builds differ only in the table lookups)
+			}
 			if !th && ops[i].heavy && ops[j].heavy && (i+j)%3 != 0 && i != j {
 				continue
 			}
@@ -345,6 +368,9 @@ func mainRace() {
 	}
 	// any report in any process of this run (children included)
 	n, ex := raceReports()
+	if raceShard != 0 {
+		n = 0 // reports are attributed per tuple above; the run-wide count (children included) is taken by process 0
+	}
 	R.Class("race detector reports", int64(n))
 	if n > 0 {
 		R.Fail("race/detector", "race-log", map[string]any{"reports": n, "first_report": ex}, nil)
